@@ -382,3 +382,146 @@ func c09LibraryQueuesDrained(c *Ctx, svcs []Service, listed map[string]bool) {
 	}
 	c.Floor("library-queue-drained", 2, "ssh-simulator: channel loop and request loop")
 }
+
+// c09DatagramEndReported: a pseudo-connection that serves one received datagram from a buffer it holds must report the
+// end of the stream once the buffer is used up, however many Reads it took to use it up – the handlers of the datagram
+// services read until Read fails. Its end-of-stream return is therefore decided by what is LEFT: len(buffer) == 0, or a
+// read offset that has reached len(buffer), tested directly or through a flag that is only ever set from such a test.
+// A flag computed from one Read's byte count (n == len(buffer)) is never set for a datagram taken in two or more Reads:
+// Read then returns (0, nil) for ever and the handler spins.
+func c09DatagramEndReported(c *Ctx) {
+	p := c.P
+	const rule = "datagram-end-reported"
+	n := 0
+	for _, nt := range p.NamedTypes() {
+		if nt.Obj().Pkg() == nil {
+			continue
+		}
+		rd := p.Method(RelPkg(nt.Obj().Pkg().Path()), nt.Obj().Name(), "Read")
+		if rd == nil || rd.Blocks == nil || len(rd.Params) != 2 || !HasMethod(types.NewPointer(nt), "RemoteAddr") {
+			continue
+		}
+		st, ok := nt.Underlying().(*types.Struct)
+		if !ok {
+			continue
+		}
+		// serves from a []byte field of its own and never delegates to another Read
+		bufIdx := -1
+		delegates := false
+		for _, call := range Calls(rd) {
+			cc := call.Common()
+			if cc.IsInvoke() && cc.Method.Name() == "Read" {
+				delegates = true
+			}
+			if f := cc.StaticCallee(); f != nil && f.Name() == "Read" && f != rd {
+				delegates = true
+			}
+			if bi, isB := cc.Value.(*ssa.Builtin); isB && bi.Name() == "copy" && len(cc.Args) == 2 && bufBase(cc.Args[0]) == ssa.Value(rd.Params[1]) {
+				src := cc.Args[1]
+				for {
+					if sl, isSl := src.(*ssa.Slice); isSl {
+						src = sl.X
+						continue
+					}
+					break
+				}
+				if idx, okF := recvFieldIdx(src, rd); okF {
+					bufIdx = idx
+				}
+			}
+		}
+		if bufIdx < 0 || delegates {
+			continue
+		}
+		n++
+		isLoadOf := func(v ssa.Value, idx int) bool {
+			if _, ok := v.(*ssa.UnOp); !ok {
+				return false
+			}
+			i, ok := recvFieldIdx(v, rd)
+			return ok && i == idx
+		}
+		isIntField := func(v ssa.Value) bool {
+			if _, ok := v.(*ssa.UnOp); !ok {
+				return false
+			}
+			i, ok := recvFieldIdx(v, rd)
+			if !ok || i >= st.NumFields() {
+				return false
+			}
+			bt, isB := st.Field(i).Type().Underlying().(*types.Basic)
+			return isB && bt.Info()&types.IsInteger != 0
+		}
+		// drained(v, pol): the boolean v being pol means nothing is left
+		var drained func(v ssa.Value, pol bool, depth int) bool
+		drained = func(v ssa.Value, pol bool, depth int) bool {
+			if depth > 3 {
+				return false
+			}
+			switch x := v.(type) {
+			case *ssa.UnOp:
+				if x.Op == token.NOT {
+					return drained(x.X, !pol, depth+1)
+				}
+				// a flag field: every store to it anywhere in the type's methods is such a test (or the constant false)
+				fi, ok := recvFieldIdx(x, rd)
+				if !ok || x.Op != token.MUL || !pol {
+					return false
+				}
+				stores := 0
+				for _, m := range p.FuncsIn(RelPkg(nt.Obj().Pkg().Path())) {
+					for _, b := range m.Blocks {
+						for _, in := range b.Instrs {
+							s2, isSt := in.(*ssa.Store)
+							if !isSt {
+								continue
+							}
+							fa, isFA := s2.Addr.(*ssa.FieldAddr)
+							if !isFA || fa.Field != fi || NamedOf(fa.X.Type()) != nt {
+								continue
+							}
+							if k, isK := s2.Val.(*ssa.Const); isK && k.Value != nil && k.Value.String() == "false" {
+								continue
+							}
+							stores++
+							if m != rd || !drained(s2.Val, true, depth+1) {
+								return false
+							}
+						}
+					}
+				}
+				return stores > 0
+			case *ssa.BinOp:
+				lx, xLen := isLenOf(x.X)
+				ly, yLen := isLenOf(x.Y)
+				k, yConst := ConstInt(x.Y)
+				switch {
+				case xLen && isLoadOf(lx, bufIdx) && yConst && k == 0: // len(buf) OP 0
+					return (x.Op == token.EQL && pol) || (x.Op == token.LEQ && pol) || (x.Op == token.NEQ && !pol) || (x.Op == token.GTR && !pol)
+				case isIntField(x.X) && yLen && isLoadOf(ly, bufIdx): // off OP len(buf)
+					return ((x.Op == token.GEQ || x.Op == token.EQL) && pol) || ((x.Op == token.LSS || x.Op == token.NEQ) && !pol)
+				case xLen && isLoadOf(lx, bufIdx) && isIntField(x.Y): // len(buf) OP off
+					return ((x.Op == token.LEQ || x.Op == token.EQL) && pol) || ((x.Op == token.GTR || x.Op == token.NEQ) && !pol)
+				}
+			}
+			return false
+		}
+		ok = false
+		nerr := 0
+		for _, r := range Returns(rd) {
+			rv := RetVals(r)
+			if len(rv) != 2 || IsNilConst(rv[1]) {
+				continue
+			}
+			nerr++
+			for _, dc := range DomConds(r) {
+				if drained(dc.V, dc.Pol, 0) {
+					ok = true
+				}
+			}
+		}
+		c.Check(ok, rule, TypeKey(nt)+".Read", p.Pos(rd.Pos()), "the end of the stream is reported when nothing of the buffer is left",
+			fmt.Sprintf("no error return of this Read (%d found) is decided by what is left of the buffer (len(buffer) == 0 / offset reached len(buffer), directly or through a flag only set from such a test): a datagram taken in two or more Reads never reaches the end-of-stream state, Read keeps returning (0, nil) and a handler that reads until an error spins for ever", nerr))
+	}
+	c.Floor(rule, 1, "listener.DummyUDPConn")
+}
